@@ -167,6 +167,33 @@ theorem expr_roundtrip (p : List (String ⊕ Int)) : exprToPath (pathToExpr p) =
     | inr i => rfl
   rw [this, List.map_id]
 
+/-- `_is_ident` accepts ASCII only: a key that `path_to_expr` prints unquoted consists of characters below
+    U+0080 (in fact of [A-Za-z0-9_]). A predicate that also accepts code points which merely case-fold to
+    ASCII letters (U+212A KELVIN SIGN, U+017F LONG S — what a case-insensitive regexp does) is a different
+    function: the model prints such keys quoted and `expr_roundtrip` covers them. -/
+theorem ident_is_ascii (s : String) (h : isIdent s = true) : ∀ c ∈ s.toList, c.toNat < 128 :=
+  fun c hc => identChar_ascii (isIdentL_ascii h c hc)
+
+/-- … and more precisely every character is one of [A-Za-z0-9_], the first not a digit -/
+theorem ident_chars (s : String) (h : isIdent s = true) :
+    (∀ c ∈ s.toList, isIdentChar c = true) ∧ ∃ c cs, s.toList = c :: cs ∧ isIdentStart c = true := by
+  refine ⟨isIdentL_ascii h, ?_⟩
+  unfold isIdent at h
+  cases hs : s.toList with
+  | nil => rw [hs] at h; simp [isIdentL] at h
+  | cons c cs =>
+    rw [hs] at h
+    simp only [isIdentL, Bool.and_eq_true] at h
+    exact ⟨c, cs, rfl, h.1⟩
+
+/-- the look-alikes are not identifiers (pinned): KELVIN SIGN, LONG S, dotless i, fullwidth A, Arabic-Indic 1 -/
+theorem ident_lookalikes_rejected :
+    isIdentL [Char.ofNat 0x212A] = false ∧ isIdentL ['a', Char.ofNat 0x017F, 'b'] = false ∧
+    isIdentL [Char.ofNat 0x0131] = false ∧ isIdentL [Char.ofNat 0xFF21] = false ∧
+    isIdentL ['a', Char.ofNat 0x0661] = false ∧ isIdentL ['K'] = true ∧
+    pathToExprL [.inl [Char.ofNat 0x212A]] = ['.', '"', Char.ofNat 0x212A, '"'] := by
+  decide
+
 /-- consequence: `path_to_expr` is injective — two different paths never print the same -/
 theorem pathToExpr_injective (p q : List (String ⊕ Int)) (h : pathToExpr p = pathToExpr q) : p = q := by
   have hp := expr_roundtrip p
